@@ -558,7 +558,8 @@ func (u *Universe) constArray(keySort, valSort string, zero Term) Term {
 func (u *Universe) okTerm(T types.Type, v Term, wm Term) Term {
 	T = types.Unalias(T)
 	if isTimeTime(T) {
-		return tTrue
+		// instants stored in memory lie within the years 1..9999 (the range the API can represent), as for loaded values
+		return and(app("Bool", ">=", app("Int", "t_ns", v), Term{"time_zero_ns", "Int"}), app("Bool", "<=", app("Int", "t_ns", v), Term{"253402300799999999999", "Int"}))
 	}
 	switch tt := T.Underlying().(type) {
 	case *types.Pointer, *types.Map, *types.Chan:
